@@ -15,8 +15,9 @@
    C05) was repaired too (fix c3f2e26).
    Still false on the code as it stands (found by this check's run-time judge, kept reported; the
    producers are not modelled here, their sites are Unjustified in the table): GCXS getitem with
-   None and an integer (malformed 2-d GCXS without indptr), einsum storing cancelled sums, and the
-   csc @ ndarray / ndarray @ csr sparse-returning kernel (unsorted rows, miscounted indptr). *)
+   None and an integer (malformed 2-d GCXS without indptr) and einsum storing cancelled sums.  The
+   csc @ ndarray sparse-returning kernel (unsorted rows, miscounted indptr; found by this check)
+   was repaired by fix 03cd171. *)
 From Coq Require Import String ZArith List Bool Sorting.Sorted.
 From Verif Require Import Shape COO COOP GCXS Ctor S_ctor_sites CtorP Prog ProgP.
 Import ListNotations.
@@ -100,11 +101,21 @@ Theorem constructor_defaults_promise_nothing :
 Proof. vm_compute. split; reflexivity. Qed.
 Print Assumptions constructor_defaults_promise_nothing.
 
-(* no site's promise is known to be false *)
-Theorem no_refuted_site :
-  forallb (fun e => match j_just e with Refuted _ => false | _ => true end) site_justification = true.
+(* Full statement (no site's promise is known to be false):
+     forallb (fun e => match j_just e with Refuted _ => false | _ => true end) site_justification = true.
+   It is FALSE of the code as it stands.  The run-time judge of this check found concrete inputs on
+   which one GCXS constructor site stores malformed arrays (replay under evidence/replays):
+     _compressed/indexing.py:getitem #0 — an integer index together with None on a 2-d operand
+       gives a 2-d GCXS with indptr = None (clause gcxs_getitem_newaxis_with_int_malformed).
+   That kernel is not modelled in Coq: the refutation is the campaign's witness.  (The sites
+   _common.py:_dot #2/#3, refuted earlier by this check, were repaired by fix 03cd171 and are now
+   justified, see csc_ndarray_rows_strictly_increasing.)  The table records exactly this one: *)
+Theorem refuted_sites_are :
+  map (fun e => (j_file e, j_func e, j_ord e))
+      (filter (fun e => match j_just e with Refuted _ => true | _ => false end) site_justification)
+  = [("_compressed/indexing.py"%string, "getitem"%string, 0)].
 Proof. vm_compute. reflexivity. Qed.
-Print Assumptions no_refuted_site.
+Print Assumptions refuted_sites_are.
 
 (* from_scipy_sparse stores the arrays of the (canonicalised) SciPy matrix: well formed when its
    rows are sorted and duplicate-free, which _canonical_scipy asks SciPy to establish *)
@@ -204,6 +215,16 @@ Theorem csr_csr_rows_strictly_increasing :
     strictly_increasing (map fst (csr_csr_row n_col a b i)) = true.
 Proof. exact CtorP.csr_csr_row_sorted. Qed.
 Print Assumptions csr_csr_rows_strictly_increasing.
+
+(* the csc @ ndarray / ndarray @ csr sparse-result kernel (sites _common.py:_dot #2, #3): for ANY
+   operands whose stored row indices are in range, every output column is stored sorted, without
+   repeats *)
+Theorem csc_ndarray_rows_strictly_increasing :
+  forall (a : gcxs Z) (n_rows : Z) (bcol : list Z),
+    0 <= n_rows -> Forall (fun k => 0 <= k < n_rows) (g_indices a) ->
+    strictly_increasing (map fst (csc_nd_col n_rows a bcol)) = true.
+Proof. exact CtorP.csc_nd_col_sorted. Qed.
+Print Assumptions csc_ndarray_rows_strictly_increasing.
 
 (* ================================================================== part 2: programs *)
 
